@@ -2,6 +2,7 @@
 from engines import realparts as rp
 from engines import simgen as g
 from engines.simprop import make_execute
+from props import c03
 
 LEVEL = 'exploration'
 RULE = ('real: maxtasksperchild 1-4, 6-30 apply jobs returning their pid plus a map, pool sizes 1-4. ' 
@@ -15,7 +16,8 @@ RULE = ('real: maxtasksperchild 1-4, 6-30 apply jobs returning their pid plus a 
 ASSUMPTIONS = [
     'shrink is generated only when no worker holds an undelivered ACK and a slot '
     'is free (the inactive test is best-effort by design); exclusions are counted',
-    'the worker-side quota enforcement is checked by C03 (real worker loop)',
+    'the worker-side quota enforcement runs the real worker loop in-process '
+    '(part worker, shared with C03): every task class counts toward the quota',
 ]
 SHARDS = {'quick': 8, 'thorough': 16}
 WALL_LIMIT = {'quick': 1500, 'thorough': 6 * 3600}
@@ -46,11 +48,16 @@ def _nontrivial(labels, sim):
 
 
 execute_sim = make_execute({'c09', 'c04'}, _nontrivial, prop='C09')
-PARTS = {'sim': execute_sim, 'real': rp.execute_c09}
-EXPLORE = {'sim': (sim_cases(), execute_sim), 'real': (rp.c09_cases(), rp.execute_c09)}
+PARTS = {'sim': execute_sim, 'real': rp.execute_c09,
+         'worker': c03.execute_worker}
+EXPLORE = {'sim': (sim_cases(), execute_sim), 'real': (rp.c09_cases(), rp.execute_c09),
+           'worker': (c03.worker_cases(), c03.execute_worker)}
 
 
 def run(ctx):
     ctx.explore('sim', sim_cases(), execute_sim, n=ctx.pick(250, 25000))
+    # the quota is enforced by the worker loop: real workloop, every task class
+    ctx.explore('worker', c03.worker_cases(), c03.execute_worker,
+                n=ctx.pick(60, 3000))
     ctx.explore('real', rp.c09_cases(), rp.execute_c09, n=ctx.pick(2, 30),
                 shrink_budget=6, reexecute_confirm=2)
